@@ -390,7 +390,11 @@ func checkC16(c *hx.Checker) {
 			ml = 3
 		}
 		if strings.Contains(bm.Name, "/wide") {
+			ns := []int{100, 127, 128, 129, 130, 200, 255, 256, 257}
 			for n := 1; n <= 72; n++ {
+				ns = append(ns, n)
+			}
+			for _, n := range ns {
 				b := make([]int, n)
 				for i := range b {
 					b[i] = (i*2 + i/3) % pool
@@ -406,9 +410,9 @@ func checkC16(c *hx.Checker) {
 			}
 			jobs = append(jobs, job{bm, b})
 		}
-		// larger batches beyond the exhaustive bound (sizes 5, 8, 17)
+		// larger batches beyond the exhaustive bound (sizes 5, 8, 17; 129, 200, 257: past block sizes of 128 and no power of two)
 		if bm.Name != "sample:ndm" {
-			for _, n := range []int{5, 8, 17} {
+			for _, n := range []int{5, 8, 17, 129, 200, 257} {
 				b := make([]int, n)
 				for i := range b {
 					b[i] = (i*2 + i/3) % pool
